@@ -40,6 +40,10 @@ def nth {T : Type} (xs : List T) (i : Nat) : Outcome (Err W) T :=
   | some x => .ok x
   | none => .panic "index out of bounds"
 
+/-- the element at a selected rank; one that is not comparable with itself (NaN) cannot bound an interval -/
+def bound {T : Type} [Cmp T] (xs : List T) (i : Nat) : Outcome (Err W) T :=
+  (nth (W := W) xs i).bind fun x => if le x x then .ok x else .err .invalidInputData
+
 /-- `ci_sorted_unchecked(confidence, sorted, quantile)` -/
 def ciSortedUnchecked {T : Type} [Cmp T] (crit : Crit W) (conf : Confidence W)
     (sorted : List T) (q : W) : Outcome (Err W) (Interval T) :=
@@ -47,9 +51,9 @@ def ciSortedUnchecked {T : Type} [Cmp T] (crit : Crit W) (conf : Confidence W)
   (ciIndices crit conf sorted.length q).bind fun idx =>
   match idx with
   | .twoSided lo hi =>
-      (nth sorted lo).bind fun a => (nth sorted hi).bind fun b => liftI (Interval.new a b)
-  | .upper lo => (nth sorted lo).bind fun a => .ok (.upper a)
-  | .lower hi => (nth sorted hi).bind fun b => .ok (.lower b)
+      (bound sorted lo).bind fun a => (bound sorted hi).bind fun b => liftI (Interval.new a b)
+  | .upper lo => (bound sorted lo).bind fun a => .ok (.upper a)
+  | .lower hi => (bound sorted hi).bind fun b => .ok (.lower b)
 
 /-- `sort_by(|a, b| a.partial_cmp(b).unwrap())`: a stable sort; it panics when it meets an
     element that is not comparable (every element is compared at least once when `len ≥ 2`) -/
